@@ -38,6 +38,8 @@ import PS.Proofs.TtcfgMul
 import PS.Proofs.TtcfgClean
 import PS.Proofs.TtcfgCountC
 import PS.Proofs.TtcfgSat
+import PS.Proofs.TtcfgBuild
+import PS.Proofs.TtcfgCleanLang
 namespace PS.T
 open PS PS.G
 
@@ -443,5 +445,170 @@ theorem finding_C13_F7 :
     Sized arith int 5 bad = false ∧
     onTable (sizeConstraint arith int 5 1 false false 1000) (fun G => PS.G.contains G bad) = true ∧
     onTable (sizeConstraint arith int 5 2 false false 1000) (fun G => !(PS.G.contains G bad)) = true := by decide +kernel
+
+/-! ## THE CONSTRUCTION ITSELF: the worklist closes, `clean()` keeps the language
+     (no per-case certificate: these replace the hypothesis `subOK` of the `_partial` theorems
+     for the code as it is now - work list keyed by rule and pending stack, 6d9766e) -/
+
+/-- **the worklist of `__saturation_build__` closes**: when the loop ends there is a set of
+    (non-terminal, pending stack) pairs that contains the start configuration, is closed under
+    every rule the rule creation gives any of its non-terminals (the next non-terminal, taken from
+    the arguments and the pending stack, with the new state, is in the set again), and all its
+    non-terminals have a row in the table returned - for every builder, DSL, request and fuel. -/
+theorem C13_saturation_closed {S T : Type} [DecidableEq S] [DecidableEq T] (B : Builder S T) (prims : List Sym)
+    (request : Ty) (fuel : Nat) (G : TT S T) (h : saturationTable B prims request true fuel = some G) :
+    ∃ seen : List (NT S T × List (Ty × S)), ((request.returns, B.init), []) ∈ seen ∧
+      (∀ (rule : NT S T) (stack : List (Ty × S)), (rule, stack) ∈ seen →
+        ∀ (P : Sym) (args : List (Ty × S)) (st : T), rowsFn (rowDict B prims request) rule P = some (args, st) →
+          ∀ (x : Ty × S) (rest : List (Ty × S)), args ++ stack = x :: rest → ((x.1, (x.2, st)), rest) ∈ seen) ∧
+      ∀ x ∈ seen, AList.contains x.1 G.rules = true :=
+  saturation_closed B prims request fuel G h
+
+/-- **`__saturation_build__` is complete**: the table it returns (before `clean`) contains
+    exactly the programs the rule creation derives from the start symbol - every builder, DSL,
+    request, fuel, program. -/
+theorem C13_saturation_complete {S T : Type} [DecidableEq S] [DecidableEq T] (B : Builder S T) (dsl : Dsl)
+    (request : Ty) (fuel : Nat) (G : TT S T) (h : saturationTable B dsl.prims request true fuel = some G) (t : Prog) :
+    PS.G.contains G t = (run (idealFn B dsl request) t (request.returns, B.init.1) B.init.2).isSome := by
+  rw [C13_contains_run]
+  exact saturation_lang B dsl request fuel G h t
+
+open Ex in
+/-- non-vacuity: the worklist of `size_constraint` over the DSL of finding C13-F2 ends, and its
+    table contains both 4-node programs -/
+example : (match saturationTable (sizeBuilder sib 2 4 true) sib.prims c true 1000 with
+    | some G => PS.G.contains G fhxy && PS.G.contains G ghxz
+    | none => false) = true := by decide +kernel
+
+/-- **`clean()` preserves the language**: every table none of whose non-terminals has the
+    end-marker type `UnknownType`, every fuel, every program.
+    (Without the hypothesis the statement is false: `finding_C13_clean_unknown`.) -/
+theorem C13_clean_lang {S T : Type} [DecidableEq S] [DecidableEq T] (G G' : TT S T) (hU : noUnknownKey G = true)
+    (fuel : Nat) (h : clean G fuel = .ok G') (t : Prog) : PS.G.contains G' t = PS.G.contains G t := by
+  rw [C13_contains_run, C13_contains_run]
+  exact clean_lang G G' hU fuel h t
+
+/-- … and so does `clean()` with the test for a missing start symbol in front (8ba7791) -/
+theorem C13_cleanFixed_lang {S T : Type} [DecidableEq S] [DecidableEq T] (G G' : TT S T) (hU : noUnknownKey G = true)
+    (fuel : Nat) (h : cleanFixed G fuel = .ok G') (t : Prog) : PS.G.contains G' t = PS.G.contains G t := by
+  rw [C13_contains_run, C13_contains_run]
+  exact cleanFixed_lang G G' hU fuel h t
+
+namespace Ex
+/-- a table with a non-terminal of the end-marker type: `S0 → x` (a leaf, ending in state 1) and
+    an empty row for `(UnknownType, ("s", 1))` -/
+def unk : TT String Nat := ⟨(int, ("s", 0)), [((int, ("s", 0)), [(xa, ([], 1))]), ((Ty.unknown, ("s", 1)), [])]⟩
+end Ex
+
+open Ex in
+/-- **why the hypothesis**: on a table with a non-terminal of type `UnknownType`, `clean()` takes
+    the end of the derivation of `x` for a deleted first argument and removes the only program. -/
+theorem finding_C13_clean_unknown :
+    noUnknownKey unk = false ∧ PS.G.contains unk (leaf xa) = true ∧
+    (match clean unk 100 with
+     | .ok G' => !(PS.G.contains G' (leaf xa)) && G'.rules.isEmpty
+     | _ => false) = true := by decide +kernel
+
+/-- **size-bounded grammars, the construction itself**: the grammar returned by the model of
+    `TTCFG.size_constraint` (saturation, then clean) contains exactly the well-typed programs with
+    at most `k` nodes and no forbidden pattern seen through the n-gram.  Hypotheses: the DSL is a
+    list of primitives without `UnknownType` arguments; `actual ∨ firstOrder` (C13-F3; the code as
+    it is now has `actual = true`). -/
+theorem C13_size_vis (dsl : Dsl) (hwf : wfDsl dsl = true) (request : Ty) (hU : noUnknownDsl dsl request = true)
+    (k : Nat) (nG : Int) (actual : Bool) (hyp : actual = true ∨ firstOrder dsl = true) (fuel : Nat)
+    (g : TTG Ctx (Nat × Nat)) (h : sizeConstraint dsl request k nG actual true fuel = .ok g) (t : Prog) :
+    PS.G.contains g.G t = SizedVis dsl request nG k t := by
+  unfold sizeConstraint at h
+  cases h0 : saturationTable (sizeBuilder dsl nG k actual) dsl.prims request true fuel with
+  | none => simp [h0] at h
+  | some G0 =>
+    simp only [h0] at h
+    cases h1 : clean G0 fuel with
+    | ok G =>
+      simp only [h1, Res.ok.injEq] at h
+      subst h
+      rw [C13_clean_lang G0 G (saturation_noUnknown _ dsl request true fuel G0 hU h0) fuel h1 t,
+        C13_saturation_complete _ dsl request fuel G0 h0 t]
+      exact size_ideal_lang dsl hwf request nG k actual hyp t
+    | fuel => simp [h1] at h
+    | keyError => simp [h1] at h
+
+/-- **size-bounded grammars** (the code as it is now; n-gram of width ≥ 2 or unbounded, C13-F7):
+    `program in TTCFG.size_constraint(dsl, request, k, n)` ↔ the program is well typed, has at most
+    `k` nodes and no forbidden pattern. -/
+theorem C13_size (dsl : Dsl) (hwf : wfDsl dsl = true) (request : Ty) (hU : noUnknownDsl dsl request = true)
+    (k : Nat) (nG : Int) (hn : nG ≥ 2 ∨ nG < 0) (fuel : Nat)
+    (g : TTG Ctx (Nat × Nat)) (h : sizeConstraint dsl request k nG true true fuel = .ok g) (t : Prog) :
+    PS.G.contains g.G t = Sized dsl request k t := by
+  rw [C13_size_vis dsl hwf request hU k nG true (Or.inl rfl) fuel g h t, (C13_vis_statement dsl request nG hn k "" t).1]
+
+/-- **occurrence-bounded grammars, the construction itself** (whenever the construction ends:
+    finite language or not) -/
+theorem C13_atmost_vis (dsl : Dsl) (hwf : wfDsl dsl = true) (request : Ty) (hU : noUnknownDsl dsl request = true)
+    (name : String) (k : Nat) (nG : Int) (fuel : Nat)
+    (g : TTG Ctx Nat) (h : atMostK dsl request name k nG true fuel = .ok g) (t : Prog) :
+    PS.G.contains g.G t = AtMostOccVis dsl request nG name k t := by
+  unfold atMostK at h
+  cases h0 : saturationTable (atMostBuilder dsl nG name k) dsl.prims request true fuel with
+  | none => simp [h0] at h
+  | some G0 =>
+    simp only [h0] at h
+    cases h1 : clean G0 fuel with
+    | ok G =>
+      simp only [h1, Res.ok.injEq] at h
+      subst h
+      rw [C13_clean_lang G0 G (saturation_noUnknown _ dsl request true fuel G0 hU h0) fuel h1 t,
+        C13_saturation_complete _ dsl request fuel G0 h0 t]
+      exact atMost_ideal_lang dsl hwf request nG name k t
+    | fuel => simp [h1] at h
+    | keyError => simp [h1] at h
+
+theorem C13_atmost (dsl : Dsl) (hwf : wfDsl dsl = true) (request : Ty) (hU : noUnknownDsl dsl request = true)
+    (name : String) (k : Nat) (nG : Int) (hn : nG ≥ 2 ∨ nG < 0) (fuel : Nat)
+    (g : TTG Ctx Nat) (h : atMostK dsl request name k nG true fuel = .ok g) (t : Prog) :
+    PS.G.contains g.G t = AtMostOcc dsl request name k t := by
+  rw [C13_atmost_vis dsl hwf request hU name k nG fuel g h t, (C13_vis_statement dsl request nG hn k name t).2]
+
+open Ex in
+/-- non-vacuity: the hypotheses hold and the constructors return - `size_constraint` on the
+    arithmetic DSL with a forbidden pattern (request int → int, 5 nodes), `at_most_k` (at most one
+    `x0`) on the DSL of finding C13-F2 -/
+example : wfDsl arith = true ∧ noUnknownDsl arith (fn [int] int) = true ∧
+    onTable (sizeConstraint arith (fn [int] int) 5 2 true true 10000) (fun G =>
+      PS.G.contains G good && !(PS.G.contains G bad)) = true ∧
+    onTable (atMostK sib c "x0" 1 2 true 1000) (fun G => PS.G.contains G fhxy) = true := by decide +kernel
+
+/-! ### products -/
+
+/-- **`g1 * g2` (table of `__mul_ttcfg__`, then `clean`) contains exactly the programs common to
+    both factors** - for all pairs of grammars that give a symbol the same argument types at
+    non-terminals of the same type, have the same start type, and no end-marker non-terminal in
+    the left factor; every fuel for which `clean` returns. -/
+theorem C13_product_clean {S T U V : Type} [DecidableEq S] [DecidableEq T] [DecidableEq U] [DecidableEq V]
+    (G1 : TT S T) (G2 : TT U V) (hag : ArgsAgree G1 G2) (hty : G1.start.1 = G2.start.1)
+    (hU : noUnknownKey G1 = true) (fuel : Nat) (G : TT (S × U) (T × V)) (h : mul G1 G2 fuel = .ok G) (t : Prog) :
+    PS.G.contains G t = (PS.G.contains G1 t && PS.G.contains G2 t) := by
+  rw [C13_clean_lang (mulRaw G1 G2) G (mulRaw_noUnknown G1 G2 hU) fuel h t]
+  exact C13_product G1 G2 hag hty t
+
+/-- … and with `clean()` as it is now (empty product = empty table instead of KeyError) -/
+theorem C13_product_cleanFixed {S T U V : Type} [DecidableEq S] [DecidableEq T] [DecidableEq U] [DecidableEq V]
+    (G1 : TT S T) (G2 : TT U V) (hag : ArgsAgree G1 G2) (hty : G1.start.1 = G2.start.1)
+    (hU : noUnknownKey G1 = true) (fuel : Nat) (G : TT (S × U) (T × V))
+    (h : cleanFixed (mulRaw G1 G2) fuel = .ok G) (t : Prog) :
+    PS.G.contains G t = (PS.G.contains G1 t && PS.G.contains G2 t) := by
+  rw [C13_cleanFixed_lang (mulRaw G1 G2) G (mulRaw_noUnknown G1 G2 hU) fuel h t]
+  exact C13_product G1 G2 hag hty t
+
+open Ex in
+/-- non-vacuity: size ≤ 3 times size ≤ 1 over {+, 1}: the cleaned product exists, the factors are
+    typed, contain no end-marker, and it contains `1` only -/
+example : (match tableOf (sizeConstraint small int 3 2 true true 100), tableOf (sizeConstraint small int 1 2 true true 100) with
+    | some G1, some G2 =>
+      typedOK G1 && typedOK G2 && noUnknownKey G1 &&
+      (match mul G1 G2 100 with
+       | .ok G => PS.G.contains G (leaf one) && !(PS.G.contains G (.node plus [leaf one, leaf one]))
+       | _ => false)
+    | _, _ => false) = true := by decide +kernel
 
 end PS.T
